@@ -348,10 +348,10 @@ def _prop(repo, it, o, name):
     return it.run(g, [], self_obj=o)
 
 
-def _adapter(repo, cls, linked=False, src=None, ctor=None):
+def _adapter(repo, cls, linked=False, src=None, ctor=None, it=None):
     from ..absbase import seed_from_init
     o = Obj(cls=cls, label=cls.name)
-    it = ExchInterp(repo)
+    it = it or ExchInterp(repo)
     seed_from_init(it, cls, o, ctor or {})
     o.fields.update(logger=Logger(label="logger"))
     o.fields.setdefault("name", "ad")
@@ -445,3 +445,157 @@ def built_output(repo, cls_name="Output", ctor=None, targets=(), pinged=(), n_ex
     for _k in range(len(pinged) if n_exchanged is None else n_exchanged):
         it.run(repo.resolve(c, "get_info", "method"), [xinfo("req", G1, T1, U1)], self_obj=o)
     return o
+
+
+class _GI(ExchInterp):
+    """Vocabulary of the adapters' own _get_info bodies: grid-less markers, unit arithmetic as uninterpreted terms."""
+
+    def construct(self, cls, args, kwargs, node):
+        if cls.name == "NoGrid" or self.repo.is_subclass(cls, "GridBase"):
+            o = Obj(cls=cls, label=cls.name, markers={cls.name})
+            o.fields.update(kwargs)
+            return o
+        return super().construct(cls, args, kwargs, node)
+
+    def ext_call(self, name, args, kwargs, node):
+        if name.split(".")[-1] == "Unit":
+            return Sym("unit", *args)
+        return super().ext_call(name, args, kwargs, node)
+
+    def binop(self, op, left, right, node):
+        if any(isinstance(x, Sym) and x.op in ("U", "unit", "uterm", "qty") for x in (left, right)):
+            return Sym("uterm", type(op).__name__, left, right)
+        return super().binop(op, left, right, node)
+
+    def get_attr(self, obj, attr, node, mod):
+        if isinstance(obj, Sym) and obj.op in ("uterm", "qty", "U", "unit"):
+            if attr in ("to_reduced_units", "to_base_units"):
+                return Sym("umethod", obj, attr)
+            if attr == "units":
+                return obj
+        return super().get_attr(obj, attr, node, mod)
+
+    def call_hook(self, fv, args, kwargs, node, mod):
+        if isinstance(fv, Sym) and fv.op == "umethod":
+            return fv.args[0]
+        return super().call_hook(fv, args, kwargs, node, mod)
+
+    def decide(self, cond, node):
+        if isinstance(cond, Sym) and cond.op in ("uterm", "unit", "X"):
+            return True
+        return super().decide(cond, node)
+
+    def compare(self, op, left, right, node):
+        if isinstance(op, (ast.Eq, ast.NotEq)) and any(isinstance(x, Obj) and x.cls is not None and x.cls.name == "NoGrid" for x in (left, right)):
+            eq = all(isinstance(x, Obj) and x.cls is not None and x.cls.name == "NoGrid" for x in (left, right))
+            return eq if isinstance(op, ast.Eq) else not eq
+        if isinstance(op, (ast.Eq, ast.NotEq)) and all(isinstance(x, Sym) and x.op == "G" for x in (left, right)):
+            return (left == right) if isinstance(op, ast.Eq) else (left != right)
+        return super().compare(op, left, right, node)
+
+
+def _required_ctor(repo, c):
+    """Stand-ins for the constructor parameters without default: None for an optional-by-convention grid, a symbol otherwise."""
+    out = {}
+    for k in repo.mro(c):
+        f = k.methods.get("__init__")
+        if f is None:
+            continue
+        a = f.node.args
+        names = [x.arg for x in a.posonlyargs + a.args][1:]
+        for i, n in enumerate(names):
+            if i < len(names) - len(a.defaults) and n not in out:
+                out[n] = None if n == "grid" else Sym("X", "ctor:" + n)
+    return out
+
+
+def _is_nogrid(v):
+    return isinstance(v, Obj) and v.cls is not None and v.cls.name == "NoGrid"
+
+
+def r16x_adapter_get_info(repo, sink):
+    """Every concrete adapter's public get_info(), run abstractly against a scripted source: exactly one request reaches the
+    source, it carries the consumer's time (and units or none), and what is delivered downstream carries the source's time and
+    meta data - wherever in the class (or its helpers) the exchange is written."""
+    ad = repo.cls("Adapter")
+    n = 0
+    for c in repo.subclasses(ad):
+        if repo.is_abstract(c) or (repo.has_cls("ARegridding") and repo.is_subclass(c, repo.cls("ARegridding"))):
+            continue  # (regridders: regrid2.r35x runs the same exchange with grids and masks in place)
+        f = repo.resolve(c, "get_info", "method")
+        n += 1
+        why = None
+        try:
+            outs = []
+            for tag in ("a", "b"):
+                o = _adapter(repo, c, linked=True, ctor=_required_ctor(repo, c), it=_GI(repo))
+                D = xinfo("src", Sym("G", "src" + tag), Sym("T", "src" + tag), Sym("U", "src" + tag), mask=Sym("M", "src"), extra={"extra": Sym("X", tag)})
+                req = xinfo("req", Sym("G", "req" + tag), Sym("T", "req" + tag), Sym("U", "req" + tag))
+                it = _GI(repo, delivered=D)
+                got = _run(it, f, [req], o)
+                outs.append((it, req, D, got))
+            for it, req, D, got in outs:
+                if got[0] != "ret" or not isinstance(got[1], XInfo):
+                    why = f"get_info on compatible infos ends in {got!r}"
+                    break
+                if len(it.requests) != 1 or not isinstance(it.requests[0], XInfo):
+                    why = f"{len(it.requests)} requests reach the source during one get_info (exactly one must: upstream learns the request once)"
+                    break
+                up, out = it.requests[0], got[1]
+                if up.fields["time"] != req.fields["time"]:
+                    why = f"the upstream request carries time {up.fields['time']!r}, the consumer asked with {req.fields['time']!r}: the request must derive from the consumer's info"
+                elif up.fields["meta"].get("units") not in (req.fields["meta"]["units"], None):
+                    why = f"the upstream request carries units {up.fields['meta'].get('units')!r}: neither the consumer's nor left open"
+                elif not (up.fields["grid"] in (req.fields["grid"], None) or _is_nogrid(up.fields["grid"]) or up.fields["grid"] == o.fields.get("grid")):
+                    why = f"the upstream request carries grid {up.fields['grid']!r}: neither the consumer's, nor left open, nor the adapter's own"
+                elif out is req or out.fields["time"] != D.fields["time"] or out.fields["meta"].get("extra") != D.fields["meta"]["extra"]:
+                    why = (f"the delivered info has time {out.fields['time']!r} / meta {out.fields['meta']!r}: it must derive from what the source "
+                           f"delivered (time {D.fields['time']!r}), not from the request")
+                if why:
+                    break
+        except (AnalysisError, Undecided) as exc:
+            sink.unknown("R16", f"get_info:{c.name}", f, f"outside vocabulary: {exc}")
+            continue
+        sink.check(why is None, "R16", f"get_info:{c.name}", f,
+                   ok="one request (consumer's time, units or none) reaches the source; the delivered info carries the source's time and meta data",
+                   bad=f"{c.name}: {why}")
+    sink.floor("R16", "concrete adapters (info exchange)", n, 14)
+    # the two adapters between gridded and grid-less data state their requirement in the request / the delivered info
+    if repo.has_cls("ValueToGrid"):
+        c = repo.cls("ValueToGrid")
+        f = repo.resolve(c, "get_info", "method")
+        try:
+            why = None
+            for own, rq, want in ((None, G2, "ok"), (G1, None, "ok"), (G1, G1, "ok"), (G1, G2, "FinamMetaDataError")):
+                o = _adapter(repo, c, linked=True, ctor={"grid": own})
+                it = _GI(repo, delivered=xinfo("src", Obj(cls=repo.cls("NoGrid"), label="NoGrid"), T1, U1, mask=Sym("M", "src")))
+                got = _run(it, f, [xinfo("req", rq, T2, U2)], o)
+                up = it.requests[0] if it.requests else None
+                if up is not None and not _is_nogrid(up.fields["grid"]):
+                    why = why or (f"the upstream request carries grid {up.fields['grid']!r}: the adapter takes scalars, so it must ask for grid-less data "
+                                  "(otherwise a gridded producer is accepted and its arrays are passed on as if they were scalars)")
+                if want == "ok":
+                    exp = own if own is not None else rq
+                    if got[0] != "ret" or got[1].fields["grid"] != exp:
+                        why = why or f"own grid {own!r}, requested {rq!r}: delivers {got!r} with grid {got[1].fields['grid'] if got[0] == 'ret' else None!r}, expected {exp!r}"
+                elif got != ("raise", want):
+                    why = why or f"own grid {own!r} and a different requested grid {rq!r}: get_info gives {got!r}, must raise {want}"
+            sink.check(why is None, "R16", "grid-adapters:ValueToGrid", f, ok="asks upstream for grid-less data, announces its own or the requested grid, refuses a conflict", bad=why or "")
+        except (AnalysisError, Undecided) as exc:
+            sink.unknown("R16", "grid-adapters:ValueToGrid", f, f"outside vocabulary: {exc}")
+    if repo.has_cls("GridToValue"):
+        c = repo.cls("GridToValue")
+        f = repo.resolve(c, "get_info", "method")
+        try:
+            o = _adapter(repo, c, linked=True, ctor={"func": Sym("func")})
+            it = _GI(repo, delivered=xinfo("src", G1, T1, U1, mask=Sym("M", "src")))
+            got = _run(it, f, [xinfo("req", Obj(cls=repo.cls("NoGrid"), label="NoGrid"), T2, U2)], o)
+            up = it.requests[0] if it.requests else None
+            why = None
+            if up is None or up.fields["grid"] is not None:
+                why = f"the upstream request carries grid {getattr(up, 'fields', {}).get('grid')!r}: any grid is acceptable upstream, the field must be left open"
+            elif got[0] != "ret" or not _is_nogrid(got[1].fields["grid"]):
+                why = f"delivers {got!r}: the aggregated value is grid-less"
+            sink.check(why is None, "R16", "grid-adapters:GridToValue", f, ok="leaves the grid open upstream and announces grid-less data", bad=why or "")
+        except (AnalysisError, Undecided) as exc:
+            sink.unknown("R16", "grid-adapters:GridToValue", f, f"outside vocabulary: {exc}")
